@@ -89,7 +89,10 @@ def bad_format_block(t):
 def wrong_objects():
     from basictdf.tdfData3D import MarkerTrack
 
-    return {"None": None, "int": 7, "str": "block", "track": MarkerTrack("m", np.zeros((2, 3), dtype="<f4")), "ndarray": np.zeros(4), "dict": {"type": 5}}
+    from basictdf.tdfBlock import UnusedBlock
+
+    return {"None": None, "int": 7, "str": "block", "track": MarkerTrack("m", np.zeros((2, 3), dtype="<f4")), "ndarray": np.zeros(4), "dict": {"type": 5},
+            "UnusedBlock": UnusedBlock()}
 
 
 class Interp(container.ContainerInterp):
@@ -241,7 +244,8 @@ class Interp(container.ContainerInterp):
         for kind, obj in wrong_objects().items():
             self.refused(f"wrong-object-{kind}", "add_block", lambda: t.add_block(obj))
             self.refused(f"wrong-object-{kind}", "replace_block", lambda: t.replace_block(obj))
-            self.refused(f"wrong-object-{kind}", "remove_block", lambda: t.remove_block(obj))
+            if kind != "UnusedBlock":  # remove_block(UnusedBlock()) is not refused (it re-stamps an unused slot); nothing to hold it to
+                self.refused(f"wrong-object-{kind}", "remove_block", lambda: t.remove_block(obj))
             self.refused(f"wrong-object-{kind}", "setter", lambda: setattr(t, list(container.SETTERS.values())[seed % 5], obj))
         # 7. absent type
         for name in absent[:4]:
@@ -251,6 +255,11 @@ class Interp(container.ContainerInterp):
             self.refused("absent-type", "remove_block", lambda: t.remove_block(BlockType(code)))
         # 9. unused slot between live blocks
         if self.hole is not None:
+            for name in live_writable:
+                blk = specs.build(container_min(name))
+                self.refused("unused-slot-between-live-blocks", "replace_block", lambda: t.replace_block(blk), must_raise=False)
+                if name in container.SETTERS:
+                    self.refused("unused-slot-between-live-blocks", "setter", lambda: setattr(t, container.SETTERS[name], blk), must_raise=False)
             for name in absent[:4]:
                 blk = specs.build(container_min(name))
                 self.refused("unused-slot-between-live-blocks", "add_block", lambda: t.add_block(blk), must_raise=False)
@@ -288,11 +297,14 @@ def summarize(it, case):
 def inits():
     @st.composite
     def s(draw):
-        init = draw(container.init_images())
-        init = copy.deepcopy(init)
-        if init["source"] == "image" and draw(st.integers(0, 4)) == 0:
-            init["hole"] = draw(st.integers(0, 10))
-        return init
+        if draw(st.integers(0, 3)) == 0:
+            # a file with an unused slot between live blocks: needs >= 2 live blocks and a spare slot
+            init = copy.deepcopy(draw(container.init_images(allow_new=False, min_live=3)))
+            if len(init["blocks"]) >= 2:
+                init["N"] = max(init["N"], len(init["blocks"]) + draw(st.integers(1, 2)))
+                init["hole"] = draw(st.integers(0, 10))
+            return init
+        return copy.deepcopy(draw(container.init_images()))
 
     return s()
 
